@@ -5,6 +5,7 @@ package main
 import (
 	"errors"
 	"fmt"
+	"github.com/BlackVectorOps/semantic_firewall/v3/internal/cli"
 	"os"
 	"path/filepath"
 	"sort"
@@ -407,6 +408,59 @@ func suitePathGuard(c *Ctx) error {
 				c.Violate("C20", "C20/opened-location-differs-from-checked-location", fmt.Sprintf("NewPebbleScanner(%q) (cwd %s): the guard checks %s, database files were created in %v (open error: %v)", sp.path, sp.cwd, want, created, err), rp)
 			}
 		}
+	}
+
+	// ---- the guard as reached through the command glue: `sfw migrate --to <path>` ----
+	// Needs a REAL protected directory, so it runs only as root, inside a private sub-directory of /root
+	// that is removed afterwards: cli.RunMigrate must refuse every spelling that lands there, and
+	// nothing may appear in it.
+	if os.Geteuid() == 0 {
+		prot := fmt.Sprintf("/root/.sfw-verif-guard-%d", os.Getpid())
+		if err := os.MkdirAll(filepath.Join(prot, "deep"), 0o755); err == nil {
+			defer os.RemoveAll(prot)
+			gl := filepath.Join(root, "glue")
+			os.MkdirAll(gl, 0o755)
+			os.Symlink(filepath.Join(prot, "deep"), filepath.Join(gl, "link"))
+			os.Symlink(prot, filepath.Join(gl, "plink"))
+			from := filepath.Join(gl, "sigs.json")
+			os.WriteFile(from, []byte(`{"version":"1","signatures":[{"id":"G1","name":"n","severity":"LOW","category":"m","topology_hash":"abc","entropy_score":1,"entropy_tolerance":0.5,"node_count":1,"loop_depth":0}]}`), 0o644)
+			listProt := func() []string {
+				var out []string
+				filepath.WalkDir(prot, func(p string, d os.DirEntry, err error) error {
+					if err == nil && p != prot && p != filepath.Join(prot, "deep") {
+						out = append(out, p)
+					}
+					return nil
+				})
+				return out
+			}
+			for _, to := range []string{
+				filepath.Join(gl, "link") + "/../newdb", // physically <prot>/newdb
+				filepath.Join(gl, "link", "db"),         // <prot>/deep/db through a symlinked parent
+				filepath.Join(gl, "plink", "x", "db"),   // two missing components below a symlink
+				filepath.Join(prot, "direct"),
+			} {
+				old := os.Stdout
+				sink, _ := os.Create(filepath.Join(gl, "migrate.out"))
+				os.Stdout = sink
+				err := cli.RunMigrate(from, to)
+				os.Stdout = old
+				sink.Close()
+				left := listProt()
+				c.Res.Evaluations++
+				c.Res.Nontrivial++
+				c.Count("cli_migrate_guard_cases")
+				if err == nil || len(left) > 0 {
+					c.Violate("C20", "C20/not-refused:through-sfw-migrate", fmt.Sprintf("cli.RunMigrate(--to %q) - the destination really lies in %s (a directory under /root) - returned %v and left %v there", to, prot, err, left),
+						map[string]interface{}{"to": to, "protected_dir": prot, "error": fmt.Sprint(err), "files_created": left})
+					for _, p := range left {
+						os.RemoveAll(p)
+					}
+				}
+			}
+		}
+	} else {
+		c.Skip("cli_guard_round_needs_root")
 	}
 	return nil
 }
